@@ -124,6 +124,7 @@ func c25(c *core.Ctx) {
 		}
 	}
 
+	c25Retry(c)
 	roots := goRoots(c, "opcua", "monitor", "uasc")
 	c.Count("goroutine roots", len(roots))
 	unlockM := obj(c, "uasc", "conditionLocker", "unlock")
